@@ -89,16 +89,16 @@ type obsState struct {
 	startedAt, pauseEnd, lastReset                       time.Time
 	// reconnecting observers: the transport(s) of the current attempt, whether one stands and has delivered
 	// something, how often the library subscribed again (reset callbacks), cuts made / made in vain
-	raw                                   []net.Conn
-	live, attemptFirst, cutting           bool
-	resets, cutsExecuted, cutNoEffect     int
-	onceDone                              bool
-	err                                                  error
-	seen                                                 map[string]bool
-	nextPause, pausesEntered, pauseByBound               int
-	dupUpdates                                           int
-	maxTick                                              int64
-	dupAtomic, wildBeforeSync, whileDown                 bool
+	raw                                    []net.Conn
+	live, attemptFirst, cutting            bool
+	resets, cutsExecuted, cutNoEffect      int
+	onceDone                               bool
+	err                                    error
+	seen                                   map[string]bool
+	nextPause, pausesEntered, pauseByBound int
+	dupUpdates                             int
+	maxTick                                int64
+	dupAtomic, wildBeforeSync, whileDown   bool
 }
 
 // reached is called under hub.mu.
